@@ -510,8 +510,12 @@ def run_trace_validation(name, module, cfg_text, trace_path, timeout=900):
 def sched_run(binary, args, outdir, tag, model, timeout=1800):
     os.makedirs(outdir, exist_ok=True)
     out = os.path.join(outdir, 'out.jsonl')
+    cur = os.path.join(outdir, 'current_schedule')
+    for f in (out, cur):
+        if os.path.exists(f):
+            os.unlink(f)
     p = subprocess.run(['timeout', str(timeout), binary] + args + ['--out', out], stdin=subprocess.DEVNULL,
-                       stdout=subprocess.DEVNULL, stderr=subprocess.PIPE)
+                       stdout=subprocess.DEVNULL, stderr=subprocess.PIPE, env=dict(os.environ, SCHED_CURRENT=cur))
     recs, summary = [], None
     if os.path.exists(out):
         for line in open(out):
@@ -525,7 +529,18 @@ def sched_run(binary, args, outdir, tag, model, timeout=1800):
                 j['tag'] = tag
                 j['model'] = model
                 recs.append(j)
-    return p.returncode, recs, summary, (p.stderr or b'').decode(errors='replace')[-400:]
+    err = (p.stderr or b'').decode(errors='replace')[-400:]
+    rc = p.returncode
+    if summary is None and (rc < 0 or rc >= 128) and rc != 137:
+        # The code under test took the process down (abort / fatal signal): that is a
+        # result, not a tool failure.  The schedule being executed identifies it.
+        sched = open(cur).read().strip() if os.path.exists(cur) else '?'
+        recs.append({'tag': tag, 'model': model, 'path': 0, 'step': 0,
+                     'field': 'the code under test crashed the process (exit status %d) under schedule %s of run %s: %s'
+                              % (rc, sched, ' '.join(args), err[-200:].replace('\n', ' ')),
+                     'expected': 'runs to completion', 'observed': 'crash', 'schedule': sched, 'args': args})
+        summary = {'paths': 1, 'steps': 0, 'diverged_paths': 1, 'complete': False, 'crashed': True}
+    return rc, recs, summary, err
 
 
 def engine_submitmt(tier, seed):
